@@ -45,23 +45,24 @@ META = {
                   'task_dep/setup/calc_dep/getargs name defined, distinct targets (wellformed_partial, '
                   'references_are_checked), tasks in definition order of a stable line sort (definition_order, '
                   'creators_sorted_stably), no non-sub-task named like a command (rejects_command_names), every sub-task '
-                  'attached to a has_subtask group whose task_dep contains the sub-tasks in yield order '
-                  '(wellformed_groups_partial, hypothesis Tidy); every unknown field, value rejected by Task.valid_attr '
-                  '(type-exact), missing actions/name, non-string basename, non-task result, duplicate name/target and '
-                  'dangling reference is rejected (accepted_results_valid, rejects_at_control, '
-                  'rejects_duplicate_in_generator, rejects_wrong_type_partial).  Task.valid_attr and the set of check_attr '
-                  'calls are re-read from the imported doit and re-proved equal to the model on every run.  The model '
-                  'is tied to doit by diffing outcome class, task order and dependency fields against the real loader, '
-                  'TaskControl and the CLI (list, run).',
-    'level_note': 'wellformed (group clause) and rejects-wrong-type hold only as *_partial on the current tree; the '
-                  'missing parts are exactly the open findings yield-replaces-task, coerced-getargs-falsy, '
-                  'coerced-subtask-name, group-attrs-actions-ignored, each proved as a counterexample theorem '
-                  '(wellformed_counterexample, rejects_wrong_type_counterexample, accepts_*) and replayed on the '
-                  'implementation (corpus/C18).  The behaviours repaired by 5a43f74/379257a/5cc6c19/eeaaa80 are kept as '
-                  'pinned_* counterexample theorems.  The monitor is a Python predicate over the real Task objects / '
+                  'attached to a has_subtask group whose task_dep contains the sub-tasks in yield order, whatever the '
+                  'order of yields (wellformed_groups; hypothesis PlainObjs only excludes Task objects marked as '
+                  'sub-task by hand); every unknown field, value rejected by Task.valid_attr (type-exact), missing '
+                  'actions/name, non-string basename, non-task result, duplicate name/target (also a yielded item for an '
+                  'already defined name) and dangling reference is rejected (accepted_results_valid, rejects_at_control, '
+                  'rejects_duplicate_in_generator, rejects_group_attrs_over_plain, rejects_wrong_type_partial).  '
+                  'Task.valid_attr and the set of check_attr calls are re-read from the imported doit and re-proved equal '
+                  'to the model on every run.  The model is tied to doit by diffing outcome class, task order and '
+                  'dependency fields against the real loader, TaskControl and the CLI (list, run).',
+    'level_note': 'rejects-wrong-type holds only as *_partial on the current tree; the missing parts are exactly the open '
+                  'findings coerced-getargs-falsy, coerced-subtask-name, group-attrs-actions-ignored, each proved as a '
+                  'counterexample theorem (rejects_wrong_type_counterexample, accepts_*) and replayed on the '
+                  'implementation (corpus/C18).  The behaviours repaired by 5a43f74/379257a/5cc6c19/eeaaa80/dd215ad are kept '
+                  'as pinned_* counterexample theorems.  The monitor is a Python predicate over the real Task objects / '
                   'exception / exit code + stderr.  Values are abstracted to their top-level type with string items; '
-                  'hand-marked Task objects (subtask_of set by the creator) are outside the group clause.  Hypothesis '
-                  'Tidy is evaluated by the driver on every case (distribution hyp:Tidy).',
+                  'hand-marked Task objects (subtask_of set by the creator) are outside the group clause '
+                  '(wellformed_handmade_counterexample).  Hypothesis PlainObjs is evaluated by the driver on every case '
+                  '(distribution hyp:PlainObjs).',
     'rule': 'creators (function / create_doit_tasks object / with basename attribute, permuted definition lines; and, in file '
             'mode, functions of a generated dodo module loaded through ModuleTaskLoader(module): plain, sharing a '
             'functools.wraps decorator, doubly decorated, bound methods, create_after, task_params, objects, plus an ignored '
@@ -97,44 +98,6 @@ def _reason(w):
     return (w or {}).get('reason', '')
 
 
-def replacing_yield(case):
-    """some generator yields a group-attribute dict (`name: None`) or a Task object whose name is already a key of
-    the generator's task dictionary"""
-    for c in case['creators']:
-        r = c['result']
-        if r['k'] != 'gen':
-            continue
-        keys = set()
-        for it in L.flat_items(r):
-            if it['k'] == 'task':
-                if it['t']['name'] in keys:
-                    return True
-                keys.add(it['t']['name'])
-            elif it['k'] == 'dict':
-                b, n = _val(it['d'], 'basename'), _val(it['d'], 'name')
-                base = b[1] if (b is not None and b[0] == 'str' and b[1]) else None
-                if n is None:
-                    if base is not None:
-                        keys.add(base)
-                else:
-                    base = base or c['name']
-                    if n[0] == 'none':
-                        if base in keys:
-                            return True
-                        keys.add(base)
-                    else:
-                        keys.add(base)
-                        keys.add('%s:%s' % (base, n[1]))
-    return False
-
-
-def _sig_replace(w):
-    return (_reason(w) in ('accepted:group-misses-subtask-or-order', 'accepted:duplicate-definition',
-                           'accepted:group-misses-subtask-or-order@load_tasks',
-                           'accepted:subtask-without-group')
-            and replacing_yield(w['case']))
-
-
 def _wrong_type_reason(w, attr):
     r = _reason(w)
     pre = 'accepted:wrong-type:%s:' % attr
@@ -164,7 +127,6 @@ def _sig_group_actions(w):
 
 SIGNATURES = {
     'group-attrs-actions-ignored': _sig_group_actions,
-    'yield-replaces-task': _sig_replace,
     'coerced-getargs-falsy': _sig_getargs,
     'coerced-subtask-name': _sig_subname,
 }
@@ -868,7 +830,7 @@ def check_case(st, case, tags, model_ans, with_cli, workdir, shrunk_reasons):
         if any(len(t['task_dep']) > 0 and t['file_dep'] for t in api['control']['tasks']):
             st.count('has-file-dep+task-dep')
     # hypotheses of the partial theorems, evaluated by the driver on this case
-    st.count('hyp:Tidy=%s' % model_ans.get('tidy'))
+    st.count('hyp:PlainObjs=%s' % model_ans.get('plain_objs'))
     # (K)
     for level in ('load', 'control'):
         dif = L.diff_level(model_ans[level], api[level], level)
